@@ -96,7 +96,10 @@ HashedBytes(era, size, idx) ==
     [] era = 2 -> IF size = 0 THEN -1 ELSE IF idx = LastLeaf(size) /\ size % 64 # 0 THEN size % 64 ELSE 64
 \* an honest proof (real data, zero-extended last leaf) is accepted unless the era cuts real data off the leaf:
 \* the middle era's multiple-of-64 last leaf (a reproduced historical consensus bug)
+\* (an empty file has no leaf: from the storage-proof fork on no proof of it is needed, before the fork none exists - the
+\* root the contract commits to is not the root of any leaf)
 HonestAccepted(era, size, idx) ==
+  IF size = 0 THEN era = 2 ELSE
   LET hb == HashedBytes(era, size, idx)
       real == IF idx = LastLeaf(size) /\ size % 64 # 0 THEN size % 64 ELSE 64 IN
   hb = -1 \/ hb >= real
@@ -117,5 +120,15 @@ EraCases == {[era |-> e, size |-> s, idx |-> x, hashed |-> HashedBytes(e, s, x),
 EraOf(child, taxH, proofH) == IF child < taxH THEN 0 ELSE IF child < proofH THEN 1 ELSE 2
 ForkHeights == {0, 1, 2, 3, 4, 1000}
 EraTable == {[child |-> c, taxH |-> t, proofH |-> p, era |-> EraOf(c, t, p)] : <<c, t, p>> \in {y \in (1..4) \X ForkHeights \X ForkHeights : y[2] <= y[3]}}
-EmitEras == (n = 1 /\ i = 0) => (PrintT("@@ERAS " \o ToJson(EraCases)) /\ PrintT("@@ERAOF " \o ToJson(EraTable)))
+\* ---- several proofs in one transaction ----
+\* A transaction is judged proof by proof: it is acceptable iff every one of its proofs is, in whatever order they stand
+\* and whatever the sizes of their files (nothing of one proof's leaf enters the verdict on the next). sizes: the files
+\* of the contracts proved, in the order of the proofs; idxs: their challenged leaves; bad: the position of the one
+\* dishonest proof (0: none; files of size 0 need no proof, so theirs cannot be dishonest).
+TxVerdict(era, sizes, idxs, bad) == bad = 0 /\ \A k \in DOMAIN sizes : HonestAccepted(era, sizes[k], idxs[k])
+TxSizes == {0, 10, 64, 100, 128, 200}
+TxLists == {<<a, b>> : a \in TxSizes, b \in TxSizes} \cup {<<a, b, c>> : a \in {10, 64, 200}, b \in {10, 64, 200}, c \in {10, 64, 200}}
+TxCases == {[sizes |-> l, bad |-> k] : l \in TxLists, k \in 0..3} 
+TxCasesOK == {c \in TxCases : c.bad <= Len(c.sizes) /\ (c.bad > 0 => c.sizes[c.bad] > 0)}
+EmitEras == (n = 1 /\ i = 0) => (PrintT("@@ERAS " \o ToJson(EraCases)) /\ PrintT("@@ERAOF " \o ToJson(EraTable)) /\ PrintT("@@TXCASES " \o ToJson(TxCasesOK)))
 =============================================================================
